@@ -83,8 +83,8 @@ def shrink(ctx, exe, fail, budget=50):
 
 
 RULES = {
-    "C04": "cases = generated operation histories (pool-building constructors + 60/70 random mutator calls with keys from "
-           "small alphabets) run on the real library; after every call the uniqueness clauses (vinv, public API), the raw "
+    "C04": "cases = generated operation histories (pool-building constructors + 150 mutator calls: a structure-building phase, three directed "
+           "scripts that release and re-use keys / remove through outer containers, ~70 random calls with keys from small alphabets) run on the real library; after every call the uniqueness clauses (vinv, public API), the raw "
            "index maps (= maps derived from the contents), every lookup by name and the acceptance of used / released keys "
            "are evaluated, and the whole state is compared with the Coq model; non-trivial = distinct history with >= 3 kinds "
            "of accepted mutators, >= 1 refusal and >= 1 accepted rename / id change / static CAN-ID change",
